@@ -9,6 +9,9 @@ import itertools
 POL_WIDE = ("FIFO", "LIFO", "JOBS", "P:loop,thread,job,main,observer", "P:loop,main,job,observer,thread",
             "P:thread,job,observer,main,loop", "P:main,loop,thread,observer,job", "P:observer,thread,loop,job,main")
 
+# one simulated scheduler process is fast, the other slow; job processes first / in between / last
+POL_PROC = ("Q:2,1,job", "Q:1,2,job", "Q:2,job,1", "Q:1,job,2", "Q:job,2,1", "Q:job,1,2")
+
 JOB_KINDS = ["up", "ups", "upd", "holder", "holder2", "mt", "pre", "init", "explicit"]
 OUT_KINDS = ["oin", "holder-o", "pre-o", "explicit"]
 SLOT = {"up": "up", "holder": "h", "holder2": "h", "mt": "h", "holder-o": "h", "oin": "oin"}   # single-valued parameters
